@@ -750,4 +750,272 @@ Proof.
   cbv zeta. split; [lia|]. replace (sc + Z.of_nat (S n)) with (sc + 1 + Z.of_nat n) by lia. apply B. lia.
 Qed.
 
+(* ---------- jpeg_skip_scanlines, branch need_context_rows ---------- *)
+Lemma mod_L s R j k : s = (R * gM g + j) * 2 + k -> 0 <= R -> 0 <= j < gM g -> 0 <= k <= 1 ->
+  s mod gL g = 2 * j + k /\ s / gL g = R.
+Proof.
+  intros Hs HR Hj Hk. rewrite gL_eq.
+  assert (He : s = gM g * 2 * R + (2 * j + k)) by lia.
+  split; symmetry.
+  - apply (Z.mod_unique_pos s (gM g * 2) R (2 * j + k)); [lia | assumption].
+  - apply (Z.div_unique_pos s (gM g * 2) R (2 * j + k)); [lia | assumption].
+Qed.
+
+Lemma ll_val off : 0 <= off < gL g ->
+  (gL g - off) mod gL g = if off =? 0 then 0 else gL g - off.
+Proof.
+  intros Ho. destruct (off =? 0) eqn:E.
+  - assert (off = 0) by lia. subst. rewrite Z.sub_0_r. apply Z_mod_same_full.
+  - apply Z.mod_small. lia.
+Qed.
+
+(* the jump: the rest of the current iMCU row (and the already decoded next one) and whole iMCU rows are
+   skipped, the remaining 1..L lines are read and discarded *)
+Lemma skip_jump_ok sc bf rc im nr rt cb w cs av ic x0 x1 ph n R1 W :
+  sc + n < gH g -> 0 < n -> 0 <= sc ->
+  ((n <? (gL g - sc mod gL g) mod gL g + 1) ||
+   (((gL g - sc mod gL g) mod gL g <=? 1) && bf && (n - (gL g - sc mod gL g) mod gL g <? gL g + 1))) = false ->
+  (if ((gL g - sc mod gL g) mod gL g <=? 1) && bf
+   then sc + (gL g - sc mod gL g) mod gL g + gL g else sc + (gL g - sc mod gL g) mod gL g) = R1 * gL g ->
+  0 <= R1 -> im = R1 -> ic = R1 -> (w = 0 \/ w = 1) -> zlen ph = gM g + 2 ->
+  Shape g W x0 x1 ->
+  (((ic =? 0) || ((ic =? 1) && (2 <? (gL g - sc mod gL g) mod gL g))) = false -> W = true) ->
+  exists st', skip_c g (mkC sc bf rc im nr rt cb w cs av ic x0 x1 ph) n = (st', n) /\
+              c_scan st' = sc + n /\ Core (sc + n) true st'.
+Proof.
+  intros HnH Hn Hsc0 Hcond Hscan1 HR1 Him Hic Hw Hph HS HW.
+  unfold skip_c. simp_c.
+  assert (E1 : (gH g <=? sc + n) = false) by lia. assert (E2 : (n =? 0) = false) by lia. rewrite E1, E2.
+  set (L := gL g) in *. set (ll := (L - sc mod L) mod L) in *. set (la := n - ll) in *.
+  rewrite Hcond.
+  assert (HL : L = gM g * 2) by apply gL_eq. assert (HLpos : 0 < L) by lia.
+  assert (Hll : 0 <= ll < L) by (unfold ll; apply Z.mod_pos_bound; lia).
+  set (ahead := (ll <=? 1) && bf) in *.
+  set (scan1 := if ahead then sc + ll + L else sc + ll) in *.
+  set (la1 := if ahead then la - L else la).
+  assert (Hla1 : 1 <= la1 /\ scan1 + la1 = sc + n).
+  { unfold la1, scan1, la, ahead in *. destruct ((ll <=? 1) && bf) eqn:Ea.
+    - cbn [andb] in Hcond. lia.
+    - lia. }
+  destruct Hla1 as (Hla1 & Hsum).
+  (* the pointer lists after the optional set_wraparound_pointers *)
+  set (st1 := if (ic =? 0) || ((ic =? 1) && (2 <? ll))
+              then set_wraparound g (mkC sc bf rc im nr rt cb w cs av ic x0 x1 ph)
+              else mkC sc bf rc im nr rt cb w cs av ic x0 x1 ph).
+  assert (Hst1 : exists y0 y1, st1 = mkC sc bf rc im nr rt cb w cs av ic y0 y1 ph /\ Shape g true y0 y1).
+  { unfold st1. destruct ((ic =? 0) || ((ic =? 1) && (2 <? ll))) eqn:Ew.
+    - exists (wrap_one g x0), (wrap_one g x1). split; [reflexivity|]. apply (wrap_shape g Hrg HM W); assumption.
+    - exists x0, x1. split; [reflexivity|]. rewrite <- (HW eq_refl). assumption. }
+  destruct Hst1 as (y0 & y1 & Hst1e & HS2). rewrite Hst1e. clear Hst1e st1 HW HS.
+  clearbody scan1 la1 ahead. clear Hcond la. clearbody ll. clearbody L.
+  simp_c. rewrite Hv.
+  set (q := (la1 - 1) / L).
+  assert (Hq : la1 - 1 = L * q + (la1 - 1) mod L /\ 0 <= (la1 - 1) mod L < L /\ 0 <= q).
+  { unfold q. pose proof (Z.div_mod (la1 - 1) L). pose proof (Z.mod_pos_bound (la1 - 1) L).
+    assert (0 <= (la1 - 1) / L) by (apply Z.div_pos; lia). lia. }
+  destruct Hq as (Hqe & Hqr & Hq0). clearbody q.
+  set (ltr := la1 - q * L).
+  assert (Hltr : 1 <= ltr <= L) by (unfold ltr; lia).
+  assert (Hqd : q * L / L = q) by (rewrite Z.div_mul by lia; reflexivity). rewrite Hqd.
+  subst im ic.
+  set (R2 := R1 + q).
+  assert (Hs2 : scan1 + q * L = R2 * gM g * 2) by (unfold R2; rewrite Hscan1, HL; lia).
+  rewrite Hs2.
+  assert (Hs2n : R2 * gM g * 2 + ltr = sc + n) by (unfold ltr; rewrite <- Hs2; lia).
+  assert (Hs2H : R2 * gM g * 2 + ltr < gH g) by lia.
+  assert (HR2 : 0 <= R2) by (unfold R2; lia).
+  assert (Hrtj : gH g - R2 * gM g * 2 <= gH g - scan1) by (rewrite <- Hs2; nia).
+  clearbody ltr. clearbody R2.
+  destruct (jump_rad (R2 * gM g * 2) 0 (gH g - scan1) cb w av y0 y1 ph R2 (Z.to_nat ltr) HR2 eq_refl Hw HS2 Hph Hrtj
+                     ltac:(lia) ltac:(lia)) as (Hsc4 & HC4).
+  rewrite Z2Nat.id in Hsc4, HC4 by lia. rewrite Hs2n in Hsc4, HC4.
+  set (st4 := read_and_discard_c g (Z.to_nat ltr) (mkC (R2 * gM g * 2) false 0 R2 2 (gH g - scan1) cb w 0 av R2 y0 y1 ph)) in *.
+  clearbody st4.
+  eexists. split; [reflexivity|]. simp_c. split; [assumption|].
+  apply (Core_reset_rtg (sc + n) false); assumption.
+Qed.
+
+Definition RelC (s : Z) (st : cst) : Prop :=
+  c_scan st = s /\ 0 <= s <= gH g /\ (s < gH g -> Core s true st).
+
+Lemma jdim_small_c x : 0 <= x < 4294967296 -> jdim x = x.
+Proof. intros. unfold jdim. apply Z.mod_small. lia. Qed.
+
+Lemma skip_c_ok s st n : RelC s st -> 0 <= n ->
+  exists st', skip_c g st n = (st', Z.min (gH g) (s + n) - s) /\ RelC (Z.min (gH g) (s + n)) st'.
+Proof.
+  intros (Hsc & Hs & HC) Hn.
+  destruct (Z_le_gt_dec (gH g) (s + n)) as [Hge | Hlt].
+  { unfold skip_c. rewrite Hsc. assert (E : (gH g <=? s + n) = true) by lia. rewrite E.
+    eexists. split; [rewrite jdim_small_c by lia; f_equal; lia|].
+    destruct st. unfold RelC, c_set_scan. simp_c. splits; try lia. }
+  destruct (Z.eq_dec n 0) as [-> | Hn0].
+  { unfold skip_c. rewrite Hsc. assert (E : (gH g <=? s + 0) = false) by lia. rewrite E. cbn [Z.eqb].
+    exists st. split; [f_equal; lia|]. replace (Z.min (gH g) (s + 0)) with s by lia. unfold RelC. auto. }
+  replace (Z.min (gH g) (s + n)) with (s + n) by lia. replace (s + n - s) with n by lia.
+  specialize (HC ltac:(lia)).
+  pose proof HC as HC0.
+  destruct HC0 as (R & j & k & Hse & HR & Hj & Hk & HsH & Hw & Hrt1 & Hrt2 & Hup & Hph & HMo).
+  destruct (mod_L s R j k Hse HR Hj Hk) as (HmL & HdL).
+  pose proof gL_eq as HL.
+  assert (Hoff : 0 <= 2 * j + k < gL g) by lia.
+  pose proof (ll_val (2 * j + k) Hoff) as Hllv.
+  destruct (pos_facts s R j k Hse HR Hj Hk HsH) as (HRT & HGd & HjNG & HH0 & HT1).
+  (* either everything is read and discarded, or the jump *)
+  set (ll := (gL g - s mod gL g) mod gL g) in *.
+  assert (Hllv' : ll = if 2 * j + k =? 0 then 0 else gL g - (2 * j + k)) by (unfold ll; rewrite HmL; exact Hllv).
+  assert (Hllraw : (gL g - s mod gL g) mod gL g = ll) by reflexivity.
+  clearbody ll. clear Hllv.
+  destruct ((n <? ll + 1) || ((ll <=? 1) && c_bfull st && (n - ll <? gL g + 1))) eqn:Econd.
+  { unfold skip_c. rewrite Hsc. assert (E1 : (gH g <=? s + n) = false) by lia. assert (E2 : (n =? 0) = false) by lia.
+    rewrite E1, E2, Hllraw, Econd.
+    destruct (rad_c (Z.to_nat n) s true st Hsc HC ltac:(lia)) as (A & B). rewrite Z2Nat.id in A, B by lia.
+    eexists. split; [reflexivity|]. unfold RelC. splits; auto; lia. }
+  assert (Hjump : exists R1 W,
+            (if (ll <=? 1) && c_bfull st then s + ll + gL g else s + ll) = R1 * gL g /\
+            0 <= R1 /\ c_imcu st = R1 /\ c_ictr st = R1 /\ Shape g W (c_xb0 st) (c_xb1 st) /\
+            (((c_ictr st =? 0) || ((c_ictr st =? 1) && (2 <? ll))) = false -> W = true)).
+  { destruct HMo as [HMo | [HMo | [HMo | HMo]]].
+    - (* start of the image *)
+      destruct HMo as (-> & -> & -> & Hbf & _ & Hic & Him & _ & HS).
+      assert (Hl0 : ll = 0) by (rewrite Hllv'; reflexivity).
+      exists 0, false. rewrite Hbf, Hic, Hl0. cbn [Z.eqb Z.leb Z.compare andb orb]. splits; auto; try lia; try discriminate.
+    - (* inside an iMCU row, CTX_PROCESS_IMCU *)
+      destruct HMo as (_ & Hbf & Hic & Him & _ & Hav_ & Hjav & Hjk & _ & HSh).
+      assert (Hl0 : ll = gL g - (2 * j + k)).
+      { rewrite Hllv'. assert (E0 : (2 * j + k =? 0) = false) by lia. now rewrite E0. }
+      rewrite Hbf in Econd.
+      assert (HRlt : R < gT g - 1).
+      { destruct (Z.eq_dec R (gT g - 1)) as [HRl | HRl]; [|lia]. exfalso.
+        assert (n < gL g - (2 * j + k)) by nia. lia. }
+      assert (Hj2 : j <= gM g - 2).
+      { unfold availR in Hjav. assert (E : (R =? gT g - 1) = false) by lia. rewrite E in Hjav. lia. }
+      destruct (HSh HRlt) as (W & HS & HW).
+      exists (R + 1), W. assert (E1 : (ll <=? 1) = false) by lia. rewrite E1. cbn [andb].
+      rewrite Hic. splits; auto; try lia.
+      all: try (intros Hc; apply HW; destruct (Z.eq_dec R 0) as [HR0 | HR0]; [|lia]; subst R;
+                assert (E2 : (2 <? ll) = true) by lia; rewrite E2 in Hc; cbn [Z.add Z.eqb Pos.eqb orb andb] in Hc; discriminate).
+    - (* the postponed row group *)
+      destruct HMo as (-> & HRlt & _ & _ & _ & HS & HQ0 & HQ1).
+      assert (Hk' : k = 0 \/ k = 1) by lia. destruct Hk' as [-> | ->].
+      + destruct (HQ0 eq_refl) as (Hbf & Hic & Him & _).
+        assert (Hl0 : ll = 2).
+        { rewrite Hllv'. assert (E0 : (2 * (gM g - 1) + 0 =? 0) = false) by lia. rewrite E0. lia. }
+        exists (R + 1), true. rewrite Hbf, Hl0. cbn [Z.leb Z.compare Pos.compare Pos.compare_cont andb].
+        splits; auto; lia.
+      + destruct (HQ1 eq_refl) as (Hbf & Hic & Him & _).
+        assert (Hl0 : ll = 1).
+        { rewrite Hllv'. assert (E0 : (2 * (gM g - 1) + 1 =? 0) = false) by lia. rewrite E0. lia. }
+        exists (R + 2), true. rewrite Hbf, Hl0. cbn [Z.leb Z.compare Pos.compare Pos.compare_cont andb].
+        splits; auto; lia.
+    - (* iMCU row boundary, next row already decoded *)
+      destruct HMo as (-> & -> & HR1 & _ & Hbf & Hic & Him & HS & _).
+      assert (Hl0 : ll = 0) by (rewrite Hllv'; reflexivity).
+      exists (R + 1), true. rewrite Hbf, Hl0. cbn [Z.leb Z.compare andb].
+      splits; auto; lia. }
+  destruct Hjump as (R1 & W & Hsc1 & HR1 & Him & Hic & HS & HW).
+  destruct st as [sc bf rc im nr rt cb w cs av ic x0 x1 ph]. simp_c_in Hsc. subst sc. simp_c_in Econd. simp_c_in Hsc1.
+  simp_c_in Him. simp_c_in Hic. simp_c_in HS. simp_c_in HW. simp_c_in Hw. simp_c_in Hph.
+  destruct (skip_jump_ok s bf rc im nr rt cb w cs av ic x0 x1 ph n R1 W) as (st' & Hsk & Hsc' & HC');
+    try rewrite Hllraw; auto; try lia.
+  exists st'. split; [assumption|]. unfold RelC. splits; auto; lia.
+Qed.
+
+(* ---------- ops, traces, the run ---------- *)
+Definition opnn (o : op) : Prop := match o with Read _ => True | Skip n => 0 <= n end.
+Definition opamt (o : op) : Z := match o with Read n => Z.max 0 n | Skip n => n end.
+
+Definition op_result_okc (s : Z) (o : op) (cs : list Z) (rs : list prov) (after : Z) : Prop :=
+  after = Z.min (gH g) (s + opamt o) /\
+  zsumc cs = after - s /\
+  match o with
+  | Read _ => rs = rows_c g s (after - s) /\ Forall (fun c => 1 <= c) cs
+  | Skip _ => rs = [] /\ cs = [after - s]
+  end.
+
+Lemma step_c_ok s st o : RelC s st -> opnn o ->
+  exists st' cs rs, step_c g st o = (st', (cs, rs)) /\ RelC (Z.min (gH g) (s + opamt o)) st' /\
+    op_result_okc s o cs rs (Z.min (gH g) (s + opamt o)).
+Proof.
+  intros HR Hnn. destruct o as [n | n]; cbn [step_c opamt].
+  - destruct HR as (Hsc & Hs & HC).
+    destruct (Z_le_gt_dec n 0) as [Hn0 | Hn0].
+    { rewrite read_loop_c_zero by lia. exists st, [], []. replace (Z.min (gH g) (s + Z.max 0 n)) with s by lia.
+      splits; try reflexivity; [unfold RelC; auto | unfold op_result_okc; cbn [opamt zsumc]; splits; try lia; auto].
+      replace (s - s) with 0 by lia. reflexivity. }
+    destruct (Z_le_gt_dec (gH g) s) as [Hb | Hb].
+    { rewrite read_loop_c_bottom by lia. exists st, [], []. replace (Z.min (gH g) (s + Z.max 0 n)) with s by lia.
+      splits; try reflexivity; [unfold RelC; auto | unfold op_result_okc; cbn [opamt zsumc]; splits; try lia; auto].
+      replace (s - s) with 0 by lia. reflexivity. }
+    destruct (read_loop_c_ok (Z.to_nat n) s st n Hsc (HC ltac:(lia)) ltac:(lia) ltac:(lia))
+      as (st' & cs & Hrl & Hsc' & Hall & Hsum & HC').
+    rewrite Hrl. exists st', cs, (rows_c g s (Z.min n (gH g - s))).
+    replace (Z.max 0 n) with n by lia.
+    splits; try reflexivity.
+    + unfold RelC. splits; try lia. intros Hlt. replace (Z.min (gH g) (s + n)) with (s + n) by lia. apply HC'. lia.
+    + unfold op_result_okc. cbn [opamt]. replace (Z.max 0 n) with n by lia.
+      replace (Z.min (gH g) (s + n) - s) with (Z.min n (gH g - s)) by lia. splits; auto.
+  - cbn in Hnn. destruct (skip_c_ok s st n HR Hnn) as (st' & Hsk & HR').
+    rewrite Hsk. exists st', [Z.min (gH g) (s + n) - s], [].
+    splits; try reflexivity; auto. unfold op_result_okc. cbn [opamt zsumc]. splits; auto; lia.
+Qed.
+
+Fixpoint trace_okc (s : Z) (ops : list op) (tr : list (Z * list Z * list prov * Z)) : Prop :=
+  match ops, tr with
+  | [], [] => True
+  | o :: t, (before, cs, rs, after) :: tr' => before = s /\ op_result_okc s o cs rs after /\ trace_okc after t tr'
+  | _, _ => False
+  end.
+
+Fixpoint final_posc (s : Z) (ops : list op) : Z :=
+  match ops with [] => s | o :: t => final_posc (Z.min (gH g) (s + opamt o)) t end.
+
+Lemma run_c_ok ops : forall s st, Forall opnn ops -> RelC s st ->
+  c_scan (fst (run_c g st ops)) = final_posc s ops /\ trace_okc s ops (snd (run_c g st ops)).
+Proof.
+  induction ops as [|o t IH]; intros s st Hnn HR.
+  - cbn. split; [apply HR | exact I].
+  - assert (Ho : opnn o) by (inversion Hnn; assumption). assert (Ht : Forall opnn t) by (inversion Hnn; assumption).
+    destruct (step_c_ok s st o HR Ho) as (st1 & cs & rs & Hst & HR1 & Hres).
+    cbn [run_c]. rewrite Hst.
+    destruct (IH _ st1 Ht HR1) as (A & B).
+    destruct (run_c g st1 t) as [st2 tr] eqn:Er. cbn [fst snd] in *.
+    assert (Hsc : c_scan st = s) by apply HR. assert (Hsc1 : c_scan st1 = Z.min (gH g) (s + opamt o)) by apply HR1.
+    split.
+    + cbn [final_posc]. exact A.
+    + cbn [trace_okc]. rewrite Hsc, Hsc1. splits; auto.
+Qed.
+
+Lemma RelC_init : RelC 0 (c_init g).
+Proof.
+  pose proof (make_funny_shape g Hrg HM) as HS.
+  unfold c_init. destruct (make_funny g) as [x0 x1]. cbn [fst snd] in HS.
+  unfold RelC. simp_c. splits; try lia. intros HH0.
+  exists 0, 0, 0. simp_c. rewrite Hv. splits; try lia; auto.
+  - split; [auto|intros; lia].
+  - unfold zlen. rewrite map_length, zseq_length'. rewrite Hrg. lia.
+  - left. unfold ModeS. simp_c. splits; auto.
+Qed.
+
+Lemma final_posc_min ops : forall s, 0 <= s <= gH g -> Forall opnn ops ->
+  final_posc s ops = Z.min (gH g) (s + fold_right (fun o acc => opamt o + acc) 0 ops).
+Proof.
+  induction ops as [|o t IH]; intros s Hs Hnn; cbn [final_posc fold_right]; [lia|].
+  assert (Ho : opnn o) by (inversion Hnn; assumption). assert (Ht : Forall opnn t) by (inversion Hnn; assumption).
+  assert (0 <= opamt o) by (destruct o; cbn in *; lia).
+  assert (Hacc : 0 <= fold_right (fun o acc => opamt o + acc) 0 t).
+  { clear -Ht. induction t as [|o' t' IH']; cbn; [lia|].
+    assert (Ho' : opnn o') by (inversion Ht; assumption). assert (Ht' : Forall opnn t') by (inversion Ht; assumption).
+    assert (0 <= opamt o') by (destruct o'; cbn in *; lia). specialize (IH' Ht'). lia. }
+  rewrite IH by (try assumption; lia). lia.
+Qed.
+
+Theorem ctx_v2_run ops : Forall opnn ops ->
+  c_scan (fst (run_c g (c_init g) ops)) = Z.min (gH g) (fold_right (fun o acc => opamt o + acc) 0 ops) /\
+  trace_okc 0 ops (snd (run_c g (c_init g) ops)).
+Proof.
+  intros Hnn. destruct (run_c_ok ops 0 (c_init g) Hnn RelC_init) as (A & B). split; [|exact B].
+  rewrite A. rewrite final_posc_min by (try assumption; lia). f_equal.
+Qed.
+
 End CtxRead.
